@@ -72,6 +72,12 @@ func DateFromString(data string) (*Date, error) {
 		Day:   int32(day),
 	}
 
+	// reject dates that are not in the calendar (month 13, 30 February, day 0)
+	asTime := dd.AsTime(time.UTC)
+	if asTime.Year() != year || int(asTime.Month()) != month || asTime.Day() != day {
+		return nil, fmt.Errorf("Invalid date string: %s", data)
+	}
+
 	return dd, nil
 }
 
